@@ -149,6 +149,27 @@ def gen_cases(ctx):
                 if l["kind"] != "unit":
                     l["setUp"] = l["tearDown"] = True
         o = worlds.gen_opts(rng, allow=("repeat", "stop", "j", "shuffle"))
+        if i % 8 == 1:
+            # layer names that contain one another, several of them unable to tear down: each child must still
+            # run exactly its own layer
+            nonunit = [l for l in w["layers"] if l["kind"] != "unit"]
+            for k, l in enumerate(nonunit):
+                l["module"] = "wlayers"
+                l["name"] = "S" + "x" * k
+                l["setUp"] = l["tearDown"] = True
+                if k < len(nonunit) - 1 and rng.random() < 0.7:
+                    l["tearDownFaults"] = [[999999, 2]]
+            for t in w["tests"]:
+                pass
+            have = {t["layer"] for t in w["tests"]}
+            for li, l in enumerate(w["layers"]):
+                if l["kind"] != "unit" and li not in have:
+                    t = worlds.gen_test(rng, max([x["id"] for x in w["tests"]] + [0]) + 1, [1], kind="pass", p_write=0.0)
+                    t["layer"], t["module"] = li, next(iter(w["modules"]))
+                    w["tests"].append(t)
+                    w["modules"][t["module"]]["suites"].append({"t": "leaf", "id": t["id"], "lyr": li})
+            o["processes"] = 1
+            o["stopOnError"] = False
         o["verbose"] = rng.choice([0, 1, 2])
         if rng.random() < 0.2:
             names = [worlds.layer_name(w, i) for i in range(len(w["layers"]))]
